@@ -1,0 +1,5 @@
+//go:build !verif
+
+package mustache
+
+func verifEvalHook(c *MustacheTemplate) {}
